@@ -113,6 +113,13 @@ class Frame:
         return False, None
 
 
+class LazyGen:
+    """``(elt for x in seq)`` over a symbolic-length sequence (iteration protocol len/get)"""
+
+    def __init__(self, e, fr, st):
+        self.e, self.fr, self.st = e, fr, st
+
+
 class Forall:
     """a universally quantified fact given as a typed schema: fn(*terms) -> z3 Bool"""
 
@@ -1816,7 +1823,7 @@ class Interp:
                 kwargs[k.arg] = self.eval(k.value, fr)
         return self.call(fv, args, kwargs)
 
-    def comprehension(self, e, fr, emit):
+    def comprehension(self, e, fr, emit, first_iter=None):
         inner = Frame(fr.closure, fr)
 
         def rec(gi):
@@ -1824,7 +1831,7 @@ class Interp:
                 emit(inner)
                 return
             g = e.generators[gi]
-            items = self.iterate_concrete(self.eval(g.iter, inner if gi else fr))
+            items = self.iterate_concrete(first_iter if (gi == 0 and first_iter is not None) else self.eval(g.iter, inner if gi else fr))
             for x in items:
                 self.assign(g.target, x, inner)
                 if all(self.truthy(self.eval(c, inner)) for c in g.ifs):
@@ -1837,7 +1844,53 @@ class Interp:
         return out
 
     def e_GeneratorExp(self, e, fr):
+        # a generator over a symbolic-length sequence stays lazy: any()/all() turn it into a
+        # witness (true branch) or a typed Forall hypothesis (false branch)
+        if len(e.generators) == 1 and not e.generators[0].ifs:
+            src = self.eval(e.generators[0].iter, fr)
+            st = None
+            if hasattr(src, "iter_state"):
+                st = src.iter_state(self)
+            if st is not None and "len" in st and "get" in st:
+                return LazyGen(e, fr, st)
+            out = []
+            self.comprehension(e, fr, lambda f: out.append(self.eval(e.elt, f)), first_iter=src)
+            return out
         return self.e_ListComp(e, fr)
+
+    def lazy_quant(self, g, want):
+        """decide ``any(g)`` (want=True) / ``all(g)`` (want=False: decides 'some element is false')"""
+        ln = g.st["len"]()
+        ity = getattr(self.ex, "gen_index_type", "index")
+
+        def body(k):
+            inner = Frame(g.fr.closure, g.fr)
+            self.assign(g.e.generators[0].target, g.st["get"](k), inner)
+            return self.eval(g.e.elt, inner)
+        b = self.fresh("exists", z3.BoolSort())
+        if self.decide(b):
+            k = self.fresh(f"witness@{ity}", z3.IntSort())
+            self.assume(z3.And(k >= 0, k < ln))
+            self.hint(ity, k)
+            v = body(k)
+            if self.truthy(v) != want:
+                raise PathCut()
+            return True
+        j = self.fresh(f"bound@{ity}", z3.IntSort())
+        nd = self.pos
+        v = body(j)
+        if isinstance(v, SBool):
+            t = v.z
+        elif isinstance(v, (bool, int)) or v is None:
+            t = z3.BoolVal(bool(v))
+        else:
+            raise Undecided("quantified generator body is not boolean")
+        if self.pos != nd:
+            raise Undecided("branching inside a quantified generator body")
+        if not want:
+            t = z3.Not(t)
+        self.assume(Forall([ity], lambda i: z3.Implies(z3.And(i >= 0, i < ln), z3.Not(z3.substitute(t, (j, i)))), "no_element_satisfies_the_generator"))
+        return False
 
     def e_SetComp(self, e, fr):
         out = self.e_ListComp(e, fr)
